@@ -10,5 +10,5 @@ cd /verif
 for p in "$@"; do
   out=$(./check "$p" quick 2>&1); code=$?
   echo "--- $p exit=$code"
-  echo "$out" | grep -E "VIOLATION|violation:|HARNESS|KNOWN|verdict" | cut -c1-700
+  echo "$out" | grep -E "VIOLATION|violation:|HARNESS|KNOWN|verdict|note:" | cut -c1-700
 done
